@@ -69,8 +69,10 @@ def record(vh, driver, seed, runs, out_dir, extra=(), chunks=None, first=0):
 
 VIOL_RE = re.compile(r'^<<"VIOL", "(C\d\d)", "(\w+)", "([^"]*)", (-?\d+), (-?\d+), (-?\d+), "(\w+)">>')
 SUM_RE = re.compile(r'^<<"TRACE-SUMMARY", (\d+), (\d+)>>')
+CONF_RE = re.compile(r'^<<"CONFORMANCE", \[checked \|-> (\d+), diverged \|-> (\d+), skipped \|-> (\d+)\]>>')
+DIV_RE = re.compile(r'^<<"DIVERGE", (-?\d+), (\d+), (-?\d+), "(\w+)", "(\w*)">>')
 
-def tlc_trace(trace, wd, spec='DbftTrace', timeout=3600, heap='3g'):
+def tlc_trace(trace, wd, spec='DbftTrace', timeout=3600, heap='3g', conform=True, conf_out=None):
     """Validate one ndjson trace file with TLC. Returns (viols, lines, states)."""
     md = os.path.join(wd, 'md-' + os.path.basename(trace))
     sd = os.path.join(wd, 'spec-' + os.path.basename(trace))
@@ -78,6 +80,10 @@ def tlc_trace(trace, wd, spec='DbftTrace', timeout=3600, heap='3g'):
     for f in glob.glob(os.path.join(VERIF, 'spec', '*.tla')) + glob.glob(os.path.join(VERIF, 'spec', spec + '.cfg')):
         shutil.copy(f, sd)
     env = dict(os.environ, VERIF_TRACE=trace)
+    if conform:
+        env['VERIF_CONFORM'] = '1'
+    else:
+        env.pop('VERIF_CONFORM', None)
     cmd = ['java', '-Xmx' + heap, '-Xss64m', '-XX:+UseParallelGC', '-cp', JAVA_CP, 'tlc2.TLC', '-workers', '1',
            '-metadir', md, '-config', spec + '.cfg', spec + '.tla']
     try:
@@ -85,7 +91,15 @@ def tlc_trace(trace, wd, spec='DbftTrace', timeout=3600, heap='3g'):
     except subprocess.TimeoutExpired:
         raise Infra('TLC timed out on ' + trace)
     viols, lines, states = [], None, None
+    conf = {'checked': 0, 'diverged': 0, 'skipped': 0, 'by_call': {}}
     for ln in r.stdout.splitlines():
+        m = CONF_RE.match(ln)
+        if m:
+            conf.update(checked=int(m.group(1)), diverged=int(m.group(2)), skipped=int(m.group(3)))
+        m = DIV_RE.match(ln)
+        if m:
+            k = m.group(4) + (':' + m.group(5) if m.group(5) else '')
+            conf['by_call'][k] = conf['by_call'].get(k, 0) + 1
         m = VIOL_RE.match(ln)
         if m:
             viols.append(dict(prop=m.group(1), formula=m.group(2), tag=m.group(3), run=int(m.group(4)),
@@ -97,13 +111,21 @@ def tlc_trace(trace, wd, spec='DbftTrace', timeout=3600, heap='3g'):
     shutil.rmtree(md, ignore_errors=True); shutil.rmtree(sd, ignore_errors=True)
     if not ok or lines is None or states != lines + 1:
         raise Infra('TLC did not accept/consume the trace %s:\n%s' % (trace, r.stdout[-3000:]))
+    if conf_out is not None:
+        conf_out.append(conf)
     return viols, lines, states
 
-def validate(traces, wd, spec='DbftTrace'):
+def validate(traces, wd, spec='DbftTrace', conform=True):
+    confs = []
     with ThreadPoolExecutor(max_workers=max(1, NCPU // 2)) as ex:
-        res = list(ex.map(lambda t: tlc_trace(t, wd, spec), traces))
+        res = list(ex.map(lambda t: tlc_trace(t, wd, spec, conform=conform, conf_out=confs), traces))
     viols = [v for r in res for v in r[0]]
-    return viols, sum(r[1] for r in res), sum(r[2] for r in res)
+    conf = {'checked': sum(c['checked'] for c in confs), 'diverged': sum(c['diverged'] for c in confs),
+            'skipped': sum(c['skipped'] for c in confs), 'diverged_by_call': {}}
+    for c in confs:
+        for k, v in c['by_call'].items():
+            conf['diverged_by_call'][k] = conf['diverged_by_call'].get(k, 0) + v
+    return viols, sum(r[1] for r in res), sum(r[2] for r in res), conf
 
 def known_findings():
     return json.load(open(os.path.join(VERIF, 'known_findings.json')))
